@@ -149,6 +149,25 @@ def build_algebra(repo, p=0, q=0, r=0, signature=None, start_index=None, basis=N
                     except Exception:
                         pass
     it.algebra = alg
+    # the operator fields: the real dataclass fields, each instantiated as a stand-in of its declared class; of the
+    # operators only `neg` is applicable (a blade asked for in an odd spelling is the negated canonical blade)
+    from .c14 import dataclass_fields
+    flds = dataclass_fields(repo, "algebra.Algebra")
+    opkinds = {f.attrs["type"].name for f in flds if "codegen" in f.attrs["metadata"]}
+    it.standins["dataclasses.fields"] = PyFunc(lambda o: list(flds), "fields", True)
+    prev_hook = it.class_call_hook
+
+    def negate(mv):
+        if isinstance(mv, Obj) and mv.kind == "MultiVector" and isinstance(mv.attrs.get("_values"), (list, tuple)) \
+                and all(isinstance(v, (int, float)) for v in mv.attrs["_values"]):
+            return Obj("MultiVector", dict(mv.attrs, _values=[-v for v in mv.attrs["_values"]]))
+        raise NoValue("neg of a non-numeric multivector stand-in")
+
+    def hook(cname, args, kwargs):
+        if cname in opkinds:
+            return Obj(cname, dict(kwargs, fmt=f"<{cname} {kwargs.get('name')}>"), call=negate if kwargs.get("name") == "neg" else None)
+        return prev_hook(cname, args, kwargs) if prev_hook is not None else None
+    it.class_call_hook = hook
     if _prepare is not None:
         _prepare(it, alg)
     out = it.run("algebra.Algebra.__post_init__", [alg])
@@ -346,7 +365,8 @@ def parity(spelling, canon):
     return sum(1 for a in range(len(seq)) for b in range(a + 1, len(seq)) if seq[a] > seq[b]) % 2
 
 
-@rule("C01.blade-parity", props=["C01", "C14", "C15"], min_instances=4, mutants=[
+@rule("C01.blade-parity", props=["C01", "C14", "C15", "C09"], min_instances=9, mutants=[
+    ("the sign of the first requested spelling is baked into the cached blade", ("algebra", "                self.blades[basis_blade] = MultiVector.fromkeysvalues(self.algebra, keys=(bin_blade,), values=[1])", "                self.blades[basis_blade] = MultiVector.fromkeysvalues(self.algebra, keys=(bin_blade,), values=[-1 if swaps % 2 else 1])")),
     ("blade dictionary ignores parity", ("algebra", "        return self.blades[basis_blade] if swaps % 2 == 0 else - self.blades[basis_blade]", "        return self.blades[basis_blade]")),
     ("spelling parity measured against the sorted spelling", ("algebra", "            swaps, *_ = _swap_blades(basis_blade, '', target=canon_blade)", "            swaps, *_ = _swap_blades(basis_blade, '', target='e' + ''.join(sorted(canon_blade[1:])))")),
 ])
@@ -409,6 +429,43 @@ def blade_parity(ctx):
         else:
             ctx.violation(c, f"blades[{sp!r}] gives {out[1]}, expected {want} (negated iff the spelling is an odd permutation "
                              f"of the canonical blade)", fn2)
+
+
+    # the lazily filled blade dictionary (algebras above six dimensions): sequences of requests on ONE object, the
+    # first request for a blade being a permuted spelling
+    def signed_blade(key, sign):
+        o = Obj("MultiVector", {"fmt": f"{'-' if sign < 0 else '+'}B[{key}]", "key": key, "sign": sign})
+        o.methods["unop"] = lambda op: signed_blade(key, -sign) if op == "USub" else (o if op == "UAdd" else Unk("unop"))
+        return o
+
+    def fromkeysvalues(algebra, keys=None, values=None, **kw):
+        if not (isinstance(keys, (tuple, list)) and len(keys) == 1 and isinstance(values, (tuple, list)) and len(values) == 1
+                and values[0] in (1, -1)):
+            raise NoValue(f"blade created as fromkeysvalues(keys={keys!r}, values={values!r})")
+        return signed_blade(keys[0], values[0])
+    c2b = {"e12": 3, "e13": 5, "e123": 7}
+    par = {"e12": ("e12", 0), "e21": ("e12", 1), "e13": ("e13", 0), "e31": ("e13", 1), "e123": ("e123", 0), "e312": ("e123", 2), "e132": ("e123", 1)}
+    for label, seq_ in (("odd spelling first", ["e21", "e12", "e21"]), ("canonical first", ["e13", "e31", "e13"]),
+                        ("even permutation first", ["e312", "e132", "e123"])):
+        c = f"{q2}#lazy:{label}"
+        alg = Obj("Algebra", {"canon2bin": dict(c2b), "graded": False}, {"_blade2canon": lambda s_: par[s_]})
+        me = Obj("BladeDict", {"algebra": alg, "blades": {}, "lazy": True})
+        it = make_interp(repo)
+        it.instance_classes["BladeDict"] = "algebra.BladeDict"
+        it.overrides["algebra.MultiVector"] = Obj("class:MultiVector", {"fromkeysvalues": PyFunc(fromkeysvalues, "MultiVector.fromkeysvalues", True)})
+        got, want = [], []
+        try:
+            for sp in seq_:
+                out = it.run(q2, [me, sp])
+                got.append((out[1].attrs.get("key"), out[1].attrs.get("sign")) if out[0] == "return" and isinstance(out[1], Obj) else out)
+                want.append((c2b[par[sp][0]], -1 if par[sp][1] % 2 else 1))
+        except NoValue as exc:
+            raise Unknown(c, str(exc), fn2)
+        if got == want:
+            ctx.ok(c, fn2, requests=seq_)
+        else:
+            ctx.violation(c, f"a lazily filled blade dictionary asked for {seq_} in this order returns (key, sign) {got}, expected {want}: "
+                             f"what a blade name denotes depends on which spelling was requested first", fn2)
 
 
 @rule("C01.pss-frame", props=["C01", "C05"], min_instances=3, mutants=[
